@@ -551,6 +551,12 @@ def tt_options_section(ctx, rng):
                 break
             d = poly_distance(pa, pb) if pa else 0.0
             if d > tol + 1e-6:
+                # (the distance is measured between sampled polylines: on a long, tightly bent curve -- thousands of units --
+                # the chord sag of 60 steps per segment is itself a few units; judge such a glyph on a 7 times finer sampling)
+                pa, pb = flatten_any(a, n, steps=420), flatten_any(b, n, steps=420)
+                d = poly_distance(pa, pb) if pa else 0.0
+                ctx.klass("tt option: resampled finer")
+            if d > tol + 1e-6:
                 ctx.spec_failure(dict(case, glyph=n, distance=d), "%r is drawn %.3f units away from the default build's outline (allowed %.2f)" % (n, d, tol))
                 break
 
